@@ -72,6 +72,14 @@ CHECKS = {
             'distinct interleavings actually observed.',
             'Trusted: a fresh Parser as reference. Interleavings are sampled, not enumerated; a trial without observed overlap '
             'makes the run inconclusive.'),
+    'C04': ('runtime monitoring: override histories on the real Executor vs a fresh translation of the edited workbook '
+            '(metamorphic oracle), repeated under several hash seeds; icontract postconditions on set_cells',
+            'Generated histories of set_cells batches (same cell rewritten, formula cells incl. a raising one, blanks, cells '
+            'beyond the used range, two sheets, both addressing styles) are executed; after every batch all formula and touched '
+            'cells are compared with the library\'s own fresh translation of the edited workbook. Each history runs in fresh '
+            'processes under 3 (thorough 16) PYTHONHASHSEEDs. Held on the histories observed.',
+            'Trusted: the library translating the edited workbook afresh as the meaning of "edit and recalculate". '
+            'None / empty-text overrides not generated.'),
 }
 
 LEVELS = {}
